@@ -96,7 +96,8 @@ theorem reflect_interval (pre : List Tbl) (t0 : Tbl) (sel' post : List Tbl) (mer
     have := @List.range'_append 0 (pre.length + (sel'.length + 1)) post.length 1
     simp only [Nat.zero_add, Nat.one_mul] at this
     rw [this]
-    simp [Nat.add_assoc]
+    congr 1
+    simp only [List.length_append, List.length_cons]
   rw [hr, List.zip_append (by simp), List.zip_append (by simp), List.flatMap_append, List.flatMap_append,
     List.zip_cons_cons, List.flatMap_cons]
   rw [zip_flatMap_keep _ _ pre (by simp), zip_flatMap_drop, zip_flatMap_keep _ _ post (by simp)]
